@@ -376,9 +376,8 @@ class GriffeLoader:
         for new_member, alias_lineno, alias_endlineno in expanded:
             overwrite = False
             already_present = new_member.name in obj.members
-            self_alias = (
-                new_member.is_alias and cast("Alias", new_member).target_path == f"{obj.path}.{new_member.name}"
-            )
+            own_path = f"{obj.path}.{new_member.name}"
+            self_alias = new_member.is_alias and own_path in {cast("Alias", new_member).target_path, new_member.path}
 
             # If a member with the same name is already present in the current object,
             # we only overwrite it if the alias is imported lower in the module
@@ -397,7 +396,9 @@ class GriffeLoader:
             if not self_alias and (not already_present or overwrite):
                 alias = Alias(
                     new_member.name,
-                    new_member,
+                    # An alias is targeted by its path: it gets resolved with its whole chain,
+                    # instead of being born resolved while the chain behind it is not.
+                    new_member.path if new_member.is_alias else new_member,  # type: ignore[arg-type]
                     lineno=alias_lineno,
                     endlineno=alias_endlineno,
                     parent=obj,  # type: ignore[arg-type]
